@@ -5514,7 +5514,13 @@ evdns_cache_lookup(struct evdns_base *base,
 			if (want_cname) {
 				ai_new->ai_canonname = mm_strdup(e->ai_canonname);
 			}
-			sockaddr_setport(ai_new->ai_addr, port);
+			/* evutil_new_addrinfo_() gives a TCP and a UDP entry when
+			 * the hints leave the socket type open: both need the port */
+			{
+				struct evutil_addrinfo *a;
+				for (a = ai_new; a; a = a->ai_next)
+					sockaddr_setport(a->ai_addr, port);
+			}
 			ai = evutil_addrinfo_append_(ai, ai_new);
 		}
 	}
@@ -5777,7 +5783,13 @@ evdns_getaddrinfo_fromhosts(struct evdns_base *base,
 			n_found = 0;
 			goto out;
 		}
-		sockaddr_setport(ai_new->ai_addr, port);
+		/* evutil_new_addrinfo_() gives a TCP and a UDP entry when the
+		 * hints leave the socket type open: both need the port */
+		{
+			struct evutil_addrinfo *a;
+			for (a = ai_new; a; a = a->ai_next)
+				sockaddr_setport(a->ai_addr, port);
+		}
 		ai = evutil_addrinfo_append_(ai, ai_new);
 	}
 	EVDNS_UNLOCK(base);
